@@ -67,8 +67,8 @@ structure AuthAccepts (W : World) (c : AuthCred) (e : AuthExpect) (r : VerifiedA
   tbOk : tokenBindingRejects cd.tokenBinding tokenBindingStatusesAuth = false
   adOk : parseAuthData c.authenticatorData = .ok ad
   rpOk : ad.rpIdHash = W.sha256 (utf8 e.rpId)
-  upOk : authUpRejects ad.flags.up = false
-  uvOk : authUvRejects e.requireUV ad.flags.uv = false
+  upOk : authUpRejects e.requireUV ad.flags.up ad.flags.uv = false
+  uvOk : authUvRejects e.requireUV ad.flags.up ad.flags.uv = false
   ctrOk : signCountRejects ad.signCount e.currentSignCount = false
   keyOk : decodeCose e.publicKey = .ok key
   pkOk : coseToPubKey key = .ok pk
